@@ -27,14 +27,16 @@ checks = {
 
 
 FL_NOTE = ("Trusted: harness projection/concretization (round-trip self-checked per case), membership in W by construction of the generators, TLC/SANY/Json module, go-openapi/spec (loader, ExpandSpec) as environment. "
-           "Bounds: quick = directed corpus + 400 sampled scenarios + 36 MC_Keys names + 60 random bundles, each x 6-8 option sets (phase snapshots for a rotating third of the runs); "
-           "thorough = all 9912 scenarios + all 819 names + 700 random bundles. MC_Flatten covers bundles without name collisions (the OAIGen de-duplication decisions are validated per event from the log, not explored). "
-           "Two known findings are listed by signature in KNOWN_FINDINGS.txt (go-openapi/spec ExpandSpec; stripOAIGen order dependence).")
+           "Bounds: quick = directed corpus + 400 sampled scenarios + 36 MC_Keys names + 60 random bundles, each x 6-9 option sets (phase snapshots for a rotating third of the runs); "
+           "thorough = corpus + 4000 sampled scenarios of the 21160 + all 819 names + 700 random bundles. MC_Flatten covers bundles without name collisions; the collision path is modelled in Dedup.tla "
+           "(explored over every map order by MC_Dedup in the thorough tier of C07) and bound to the code by the context-conformance pass CTX of Trace_Flatten. "
+           "One known finding is listed by signature in KNOWN_FINDINGS.txt (go-openapi/spec ExpandSpec, order dependent).")
 FL_TECH = ("explicit TLA+ spec of the flatten pipeline (Flatten.tla: ExpandShared/ExpandAll, ImportLoop, NameLoop, PointerLoop, RemoveAll) explored exhaustively by TLC "
-           "(MC_Flatten: scenario family x option sets, the properties as invariants, C01 inductive over phases); scenario family with W invariants (MC_FlattenScen, 9912 bundles) and "
+           "(MC_Flatten: scenario family x option sets, the properties as invariants, C01 inductive over phases); scenario family with W invariants (MC_FlattenScen, 21160 bundles) and "
            "character-class model of the escaping layers (MC_Keys) exported and replayed; TLA+ predicates (FlattenProps.tla over RefSem.tla bisimulation / Swagger.tla typing) evaluated by TLC "
            "on states recorded from the real Flatten (Trace_Flatten): initial bundle, snapshot after every phase and loop round (verif hooks), rewritten document, outcome, second pass, analyzer state; "
-           "step-level conformance of every recorded phase transition against the operators of Flatten.tla with logged arguments")
+           "step-level conformance of every recorded phase transition against the operators of Flatten.tla with logged arguments, and conformance of every logged de-duplication step "
+           "against the flatten-context model Dedup.tla (enabledness, parents, election, resulting document)")
 checks.update({
  "C01": dict(technique=FL_TECH + "; C01 = bisimilarity of the $ref-unfolded trees section by section and definition by definition",
    text="model_checking (trace validation): for every generated bundle of W and every option set the real Flatten is run; TLC decides SameMeaning (reachable-pairs bisimulation of the $ref-unfolded documents) for paths and every other top-level member, the shared sections (unless RemoveUnused), and every pre-existing definition, plus 'only definitions are added' and 'x-go-gen-location only on new definitions'.",
@@ -92,9 +94,9 @@ checks.update({
    text="model_checking (trace validation): for every method x path (existing or not) and every unique / unknown operation id, TLC checks: Safe variants never panic, never return an unresolved placeholder, report exactly the bad $refs in order (continue policy) or a consistent subset (stop policy: any prefix-closed outcome accepted); plain variants panic iff a bad $ref exists and otherwise return the specified map; missing method/path/id and documents without paths give an empty result.",
    note="Trusted: swag.ToGoName supplied as a relation (names are drawn so that it is injective); projection; TLC/Json. The override key is (location, name) as the statement says; x-go-name is generated but must not matter.", ref="7/C15"),
  "C07": dict(
-   technique="TLA+ trace predicate over recorded runs (Trace_Det.tla: all outcomes and SHA-256 of json.Marshal(document) equal across R repeated runs and P input copies with permuted JSON member order; Expand claimed only when HasCycle(bundle) of RefSem.tla is false); cases from the TLC-enumerated scenario family (incl. two imports on one base name, one target under two $ref spellings, sibling keys equal up to case) and the directed corpus",
+   technique="TLA+ trace predicate over recorded runs (Trace_Det.tla: all outcomes and SHA-256 of json.Marshal(document) equal across R repeated runs and P input copies with permuted JSON member order; Expand claimed only when HasCycle(bundle) of RefSem.tla is false); cases from the TLC-enumerated scenario family (incl. two imports on one base name, one target under two $ref spellings, sibling keys equal up to case, duplicate operation ids, names already taken by generated names) and the directed corpus; thorough tier: explicit TLA+ model of import collisions and their resolution (Dedup.tla) in which the range over Go's map is a NONDETERMINISTIC choice, explored by TLC over every order (MC_Dedup) with the invariant InvConfluent (every order ends on the document of the fixed-order composition) and InvNoError",
    text="model_checking (trace validation) of sampled schedules: each (bundle of W, option set) is flattened R=5 (thorough 16) times in worker processes (Go randomises every map range) and on P=2 (6) copies of the files whose JSON members are written in a permuted order; TLC decides equality of outcomes and hashes and computes the applicability of Expand from the $ref graph. Map-iteration schedules can only be sampled on the real code: a two-way order dependence is missed with probability 2^-(R-1) per case.",
-   note="Trusted: Go's per-range map randomisation as schedule sampler; projection; TLC/Json. The self-composed pipeline model (MC_FlattenDet) of DESIGN.md is not built: the order-dependent choice points are exercised through the directed scenarios instead.", ref="7/C07"),
+   note="Trusted: Go's per-range map randomisation as schedule sampler; projection; TLC/Json. On the model the order independence of the de-duplication phase is decided exhaustively (MC_Dedup, thorough tier, mid-size family: ~50k states); the model is bound to the code by the CTX conformance pass of the flatten checks (every logged de-duplication step is an enabled model step with the model's parents).", ref="7/C07"),
  "C16": dict(
    technique="TLA+ process model of N readers on one shared index (Readers.tla: Query / Scribble, invariant ReadOnly; negative control with an aliasing getter must violate it) checked exhaustively by TLC; bound by traces of G goroutines on one real analyzed Spec under Go's race detector: every event [goroutine, seq, query, canonical answer] validated by TLC (Trace_Readers) against the sequential baseline answers, document serialized identically before/after",
    text="model_checking + race detection: TLC explores all interleavings of 3 readers issuing queries and scribbling on handed-out maps (and confirms the invariant is not vacuous on the aliasing variant); the harness, built with -race and GORACE=halt_on_error=1, releases G=8 (16) goroutines together on one Spec, each issuing a seeded random sequence of all public query methods and mutating every returned pattern/enum map; a detected race kills the worker and is attributed; TLC checks every recorded answer equals the sequential answer and per-goroutine sequence numbers are gap-free.",
